@@ -308,6 +308,23 @@ func (t *Table) LeftOptionalJoin(t2 *Table) error {
 	if disjointBindings(t.mbs, t2.mbs) {
 		// The tables has nothing in commnon. Hence, we are going to treat it
 		// as a regular cross product.
+		if t2.NumRows() == 0 {
+			// There is nothing to join with. A cross product would drop every
+			// row of the left table; a left join keeps them all and marks the
+			// bindings of the right table as <NULL>.
+			t.mu.Lock()
+			defer t.mu.Unlock()
+			ubs := unionBindings(t.mbs, t2.mbs)
+			for i, r := range t.Data {
+				t.Data[i] = extendRow(r, ubs)
+			}
+			t.mbs = ubs
+			t.AvailableBindings = nil
+			for k := range ubs {
+				t.AvailableBindings = append(t.AvailableBindings, k)
+			}
+			return nil
+		}
 		return t.DotProduct(t2)
 	}
 	// There are some overlapping bindings. That requires to sort both tables
